@@ -43,13 +43,17 @@ Reading given to the accepted subset
   `datetime.datetime.now().isoformat()` -> `now_iso`; `str(x)`; `+`; `not`; `==`, `!=`, `<`, `<=`,
   `>`, `>=`, `in`, `is None`, `is not None`; constants None / True / False / int / str; list displays.
 * A table loop is unrolled at translation time: a local bound ONCE, by `name = [(c11, .., c1k), (c21, ..), ...]` (a list
-  display of tuples of constants, all of one arity), whose only use is as the iterable of ONE
+  or tuple display of tuples of constants, all of one arity - or of plain constants, then the loop binds one name), whose only use is as the iterable of ONE
   `for v1, .., vk in name:` that follows the assignment in the same statement list, is read as the
   loop body repeated once per row with the constants substituted for v1..vk (Python's semantics of
   iterating a list nobody else can reach; a `raise` / `return` in the body ends the sequence as it
   ends the loop).  The loop variables must not be assigned in the body nor used outside the loop,
   the loop has no `else`, `break` or `continue`.  Anything else about such a list (indexing,
   mutation, a second use, non-constant elements) is refused like any tuple / loop.
+  `for v.. in <such a display written in the loop header>:` is unrolled the same way.
+* `f"...{e}..."` as a value is the concatenation of its literal pieces and `str(e)` of its fields (no conversion, no
+  format spec); `getattr(args, '<literal>')` is `args.<literal>`; `os.path.dirname(os.path.realpath(__file__))` is the
+  value `e_script_dir`, `os.path.join(a, b, ...)` is the oracle `e_pjoin` on the component strings (`path_join`).
 * `print(..., file=sys.stderr)` -> `print_err` (a no-op); a `print` without `file=` -> `print_out`
   (logs EStdout); any other `file=` is refused.
 
@@ -190,19 +194,28 @@ def _is_const(n):
     return isinstance(n, ast.Constant) and (n.value is None or isinstance(n.value, (bool, int, str)))
 
 
-def _table_rows(stmt):
-    """`name = [(c, ..), ..]` -> (name, rows) or None"""
-    if not (isinstance(stmt, ast.Assign) and len(stmt.targets) == 1 and isinstance(stmt.targets[0], ast.Name)
-            and isinstance(stmt.value, ast.List) and stmt.value.elts):
+def _display_rows(d):
+    """a list / tuple display of constants, or of tuples of constants of one arity -> (scalar?, rows) or None"""
+    if not (isinstance(d, (ast.List, ast.Tuple)) and d.elts):
         return None
+    if all(_is_const(e) for e in d.elts):
+        return True, [[e.value] for e in d.elts]
     rows = []
-    for e in stmt.value.elts:
+    for e in d.elts:
         if not (isinstance(e, ast.Tuple) and e.elts and all(_is_const(c) for c in e.elts)):
             return None
         rows.append([c.value for c in e.elts])
     if len(set(len(r) for r in rows)) != 1:
         return None
-    return stmt.targets[0].id, rows
+    return False, rows
+
+
+def _table_rows(stmt):
+    """`name = [(c, ..), ..]` / `name = ((c, ..), ..)` / `name = (c, ..)` -> (name, scalar?, rows) or None"""
+    if not (isinstance(stmt, ast.Assign) and len(stmt.targets) == 1 and isinstance(stmt.targets[0], ast.Name)):
+        return None
+    r = _display_rows(stmt.value)
+    return None if r is None else (stmt.targets[0].id, r[0], r[1])
 
 
 class _Subst(ast.NodeTransformer):
@@ -225,21 +238,68 @@ def _stmt_lists(node):
 
 def unroll_tables(fn):
     """-> a copy of the function in which every table loop (see the module docstring) is replaced by its unrolled
-    body and the assignment of the table is removed.  A list of constant tuples that is used in any other way is
-    left alone (and refused later: tuples are outside the subset)."""
+    body (and the assignment of the table, if it has a name, is removed).  A display of constant tuples that is used in
+    any other way is left alone (and refused later: tuples are outside the subset)."""
     fn = copy.deepcopy(fn)
 
     def refuse(node, msg):
         raise Refuse("%s:%d: %s: %s" % (SRC, getattr(node, "lineno", 0), fn.name, msg))
+
+    def unroll(loop, scalar, rows, what):
+        if loop.orelse:
+            refuse(loop, "for ... else over %s" % what)
+        tg = loop.target
+        if scalar:
+            if not isinstance(tg, ast.Name):
+                refuse(loop, "the loop over %s unpacks constants" % what)
+            tvars = [tg]
+        else:
+            if isinstance(tg, ast.Name):
+                refuse(loop, "the loop over %s binds whole rows (tuples are outside the subset)" % what)
+            tvars = list(tg.elts) if isinstance(tg, ast.Tuple) else None
+            if tvars is None or not all(isinstance(v, ast.Name) for v in tvars) or len(set(v.id for v in tvars)) != len(tvars):
+                refuse(loop, "the target of the loop over %s is not a tuple of distinct names" % what)
+            if len(tvars) != len(rows[0]):
+                refuse(loop, "the loop over %s unpacks %d names from rows of %d" % (what, len(tvars), len(rows[0])))
+        ids = set(v.id for v in tvars)
+        inside = set(id(n) for n in ast.walk(loop))
+        for n in ast.walk(fn):
+            if isinstance(n, ast.Name) and n.id in ids and id(n) not in inside:
+                refuse(n, "loop variable %r of the table loop is used outside the loop" % n.id)
+            if isinstance(n, ast.arg) and n.arg in ids:
+                refuse(loop, "loop variable %r of the table loop is a parameter" % n.arg)
+        for b in loop.body:
+            for n in ast.walk(b):
+                if isinstance(n, ast.Name) and n.id in ids and not isinstance(n.ctx, ast.Load):
+                    refuse(n, "loop variable %r is assigned inside the table loop" % n.id)
+                if isinstance(n, (ast.Break, ast.Continue)):
+                    refuse(n, "break / continue inside the table loop")
+                if isinstance(n, (ast.For, ast.While, ast.FunctionDef, ast.Lambda, ast.ClassDef, ast.Global, ast.Nonlocal)):
+                    refuse(n, "%s inside the table loop" % type(n).__name__)
+        out = []
+        for row in rows:
+            env = {v.id: c for v, c in zip(tvars, row)}
+            for b in loop.body:
+                out.append(ast.fix_missing_locations(_Subst(env).visit(copy.deepcopy(b))))
+        return out
+
     changed = True
     while changed:
         changed = False
         for blk in _stmt_lists(fn):
             for i, st in enumerate(blk):
+                # for v.. in <display of constants>:   (nobody else can reach the display)
+                if isinstance(st, ast.For):
+                    r = _display_rows(st.iter)
+                    if r is not None:
+                        blk[i:i + 1] = unroll(st, r[0], r[1], "the display of constants")
+                        changed = True
+                        break
+                    continue
                 tr = _table_rows(st)
                 if tr is None:
                     continue
-                name, rows = tr
+                name, scalar, rows = tr
                 names = [n for n in ast.walk(fn) if isinstance(n, ast.Name) and n.id == name]
                 stores = [n for n in names if not isinstance(n.ctx, ast.Load)]
                 loads = [n for n in names if isinstance(n.ctx, ast.Load)]
@@ -248,38 +308,9 @@ def unroll_tables(fn):
                         or name in [a.arg for a in fn.args.args]:
                     continue                      # not a table loop: the tuple display is refused downstream
                 loop = fors[0]
-                if loop.orelse:
-                    refuse(loop, "for ... else over the table %r" % name)
-                tg = loop.target
-                tvars = [tg] if isinstance(tg, ast.Name) else list(tg.elts) if isinstance(tg, ast.Tuple) else None
-                if tvars is None or not all(isinstance(v, ast.Name) for v in tvars) or len(set(v.id for v in tvars)) != len(tvars):
-                    refuse(loop, "the target of the loop over the table %r is not a tuple of distinct names" % name)
-                if isinstance(tg, ast.Name):
-                    refuse(loop, "the loop over the table %r binds whole rows (tuples are outside the subset)" % name)
-                if len(tvars) != len(rows[0]):
-                    refuse(loop, "the loop over the table %r unpacks %d names from rows of %d" % (name, len(tvars), len(rows[0])))
-                ids = set(v.id for v in tvars)
-                inside = set(id(n) for n in ast.walk(loop))
-                for n in ast.walk(fn):
-                    if isinstance(n, ast.Name) and n.id in ids and id(n) not in inside:
-                        refuse(n, "loop variable %r of the table loop is used outside the loop" % n.id)
-                    if isinstance(n, ast.arg) and n.arg in ids:
-                        refuse(loop, "loop variable %r of the table loop is a parameter" % n.arg)
-                for b in loop.body:
-                    for n in ast.walk(b):
-                        if isinstance(n, ast.Name) and n.id in ids and not isinstance(n.ctx, ast.Load):
-                            refuse(n, "loop variable %r is assigned inside the table loop" % n.id)
-                        if isinstance(n, (ast.Break, ast.Continue)):
-                            refuse(n, "break / continue inside the table loop")
-                        if isinstance(n, (ast.For, ast.While, ast.FunctionDef, ast.Lambda, ast.ClassDef, ast.Global, ast.Nonlocal)):
-                            refuse(n, "%s inside the table loop" % type(n).__name__)
-                unrolled = []
-                for row in rows:
-                    env = {v.id: c for v, c in zip(tvars, row)}
-                    for b in loop.body:
-                        unrolled.append(ast.fix_missing_locations(_Subst(env).visit(copy.deepcopy(b))))
+                body = unroll(loop, scalar, rows, "the table %r" % name)
                 j = blk.index(loop)
-                blk[j:j + 1] = unrolled
+                blk[j:j + 1] = body
                 del blk[i]
                 changed = True
                 break
@@ -374,6 +405,27 @@ class Fn:
             self.refuse(e, "attribute %s is outside the subset" % ast.unparse(e))
         if isinstance(e, ast.Call):
             return self.call(e, scope)
+        if isinstance(e, ast.JoinedStr):
+            # f"lit{e1}lit{e2}": the pieces concatenated left to right, a field is str(e) (format(e, '') of the modelled values)
+            binds, acc = [], None
+            for part in e.values:
+                if isinstance(part, ast.Constant) and isinstance(part.value, str):
+                    if part.value == "":
+                        continue
+                    piece = self.const(part, part.value)
+                elif isinstance(part, ast.FormattedValue) and part.conversion == -1 and part.format_spec is None:
+                    b, t = self.val(part.value, scope)
+                    piece = self.temp()
+                    binds += b + [(piece, "py_str %s" % t)]
+                else:
+                    self.refuse(e, "f-string field with a conversion / format spec")
+                if acc is None:
+                    acc = piece
+                else:
+                    t2 = self.temp()
+                    binds.append((t2, "py_add %s %s" % (acc, piece)))
+                    acc = t2
+            return binds, (acc if acc is not None else self.const(e, "")), "val"
         self.refuse(e, "expression %s is outside the subset" % type(e).__name__)
 
     def boolop(self, e, scope):
@@ -509,17 +561,22 @@ class Fn:
             for k in e.keywords:
                 self.text_only(k.value)
             return [], "new_parser", "parser"
-        if d == "os.path.join":
-            first = e.args[0] if e.args else None
-            if not (nokw and first is not None and ast.unparse(first) == "os.path.dirname(os.path.realpath(__file__))"):
-                self.refuse(e, "os.path.join must start with os.path.dirname(os.path.realpath(__file__))")
+        if ast.unparse(e) == "os.path.dirname(os.path.realpath(__file__))" and "os" not in scope:
+            return [], "(VStr (e_script_dir E))", "val"
+        if d == "os.path.join" and "os" not in scope:
+            if not (nokw and e.args):
+                self.refuse(e, "os.path.join without components / with keywords")
             binds, parts = [], []
-            for a in e.args[1:]:
+            for a in e.args:
                 b, t = self.val(a, scope)
                 binds += b
                 parts.append(t)
             r = self.temp()
-            return binds + [(r, "script_path E [%s]" % "; ".join(parts))], r, "val"
+            return binds + [(r, "path_join E [%s]" % "; ".join(parts))], r, "val"
+        if d == "getattr" and nokw and len(e.args) == 2 and "getattr" not in scope and isinstance(e.args[0], ast.Name) \
+                and scope.get(e.args[0].id) == "ns":
+            r = self.temp()
+            return [(r, "ns_attr v_%s %s" % (e.args[0].id, lit(self.strlit(e.args[1], "the attribute name of getattr"))))], r, "val"
         if ast.unparse(e) == "datetime.datetime.now().isoformat()":
             r = self.temp()
             return [(r, "now_iso E")], r, "val"
@@ -971,7 +1028,7 @@ class Translator:
             if froms.get(name) != src:
                 raise Refuse("%s: %s is not imported from %s" % (SRC, name, src[0]))
         # none of the names the translation gives a fixed meaning may be rebound at module level
-        fixed = set(MODULES) | set(IMPORTS) | {"print", "str", "open", "int"}
+        fixed = set(MODULES) | set(IMPORTS) | {"print", "str", "open", "int", "getattr"}
         for n in self.tree.body:
             tg = []
             if isinstance(n, ast.Assign):
